@@ -17,6 +17,7 @@ import (
 	"sort"
 	"strconv"
 	"strings"
+	"time"
 )
 
 var repo = flag.String("repo", "/repo", "repository root")
@@ -189,6 +190,22 @@ func main() {
 	for _, g := range extraGens {
 		g()
 	}
+	// heavy generators (whole-program analyses) run last, each under a deadline: a
+	// generator that does not finish must not block the tables of the other properties.
+	// It writes its own "not extracted" fallback first (see the generator), so the
+	// dependent proofs fail closed.
+	for _, g := range heavyGens {
+		done := make(chan struct{})
+		go func() { g(); close(done) }()
+		select {
+		case <-done:
+		case <-time.After(*heavyDeadline):
+			fmt.Fprintln(os.Stderr, "extract: heavy generator exceeded its deadline, fallback table left in place")
+			os.Exit(0)
+		}
+	}
 }
 
 var extraGens []func()
+var heavyGens []func()
+var heavyDeadline = flag.Duration("heavy-deadline", 40*time.Second, "deadline per heavy generator")
